@@ -106,6 +106,17 @@ CLAIMED.update({
             SCHED_NOTE, "DESIGN.md section 5 C08"),
 })
 
+CLAIMED.update({
+    "C09": ("exploration",
+            "property-based testing (rapid): generated stall schedules (ctx-ignoring gate at a generated store call, hammering / trickling producers, Flush storms, stalls longer than MaxBufferedTime) with a configuration-derived bound on accepted-but-unanswered batches; drain check after release",
+            "60 (quick) / 1 500 (thorough) stalls; most have producers attempting >= 3x the bound. Over-bound verdicts must reproduce twice.",
+            SCHED_NOTE, "DESIGN.md section 5 C09"),
+    "C10": ("exploration",
+            "property-based testing (rapid): model-based — a reference model of the ingest buffer (rows, marshaled bytes, per-partition counts) predicts when a limit is certainly reached; generated limit settings x batch shapes; time-bounded oracle with confirm-by-replay",
+            "100 (quick) / 2 500 (thorough) generated configurations and batch sequences, no Flush/Stop while obligations are open; immediate-flush obligations only when the limit is reached under any reasonable byte accounting.",
+            SCHED_NOTE, "DESIGN.md section 5 C10"),
+})
+
 PENDING_REASON ="check not yet built in this revision of /verif (no technical obstacle; see DESIGN.md section 5)"
 
 def main():
